@@ -7,6 +7,7 @@ import (
 	"net/http"
 	"net/http/httptest"
 	"sort"
+	"strconv"
 	"strings"
 
 	"github.com/creachadair/jrpc2"
@@ -63,9 +64,15 @@ func (t *tagHandlers) Assign(ctx context.Context, method string) jrpc2.Handler {
 			}
 			return raw, nil
 		}
-	case "fail":
+	}
+	if strings.HasPrefix(method, "fail") {
+		// "fail" or "fail<code>": a handler that fails with the given code
+		code := 1234
+		if n, err := strconv.Atoi(method[4:]); err == nil {
+			code = n
+		}
 		return func(ctx context.Context, req *jrpc2.Request) (any, error) {
-			return nil, jrpc2.Errorf(jrpc2.Code(1234), "handler failed")
+			return nil, jrpc2.Errorf(jrpc2.Code(code), "handler failed")
 		}
 	}
 	return nil
@@ -151,13 +158,13 @@ func scenarioC18(r *Run) {
 		var list []*exchange
 		for e := 0; e < 1+g.Int("nexchanges", 2); e++ {
 			ex := &exchange{Caller: c, Method: "POST", CType: "application/json", Kind: "rpc"}
-			switch g.Weighted("exkind", []int{16, 1, 1, 1, 1}) {
+			switch g.Weighted("exkind", []int{16, 2, 2, 1, 3}) {
 			case 1:
-				ex.Kind, ex.Method = "non-post", []string{"GET", "PUT", "DELETE"}[g.Int("verb", 3)]
+				ex.Kind, ex.Method = "non-post", []string{"GET", "PUT", "DELETE", "OPTIONS", "HEAD", "PATCH", "post", "TRACE", "FOO"}[g.Int("verb", 9)]
 			case 2:
-				ex.Kind, ex.CType = "bad-type", []string{"text/plain", "", "application/xml"}[g.Int("ctype", 3)]
+				ex.Kind, ex.CType = "bad-type", []string{"text/plain", "", "application/xml", "application/jsonx", "application/json-rpc", "text/json", "application/x-json", "json", "application/", "application/vnd.api+json"}[g.Int("ctype", 10)]
 			case 3:
-				ex.Kind, ex.CType = "bad-charset", "application/json; charset=latin1"
+				ex.Kind, ex.CType = "bad-charset", []string{"application/json; charset=latin1", "application/json; charset=utf-16", "application/json; charset=us-ascii", "application/json; charset=utf-7", "application/json;charset=iso-8859-1"}[g.Int("badcharset", 5)]
 			case 4:
 				ex.Kind = "non-json"
 			}
@@ -218,7 +225,32 @@ func scenarioC18(r *Run) {
 				ex.Body = parts[0]
 			}
 			if ex.Kind == "non-json" {
-				ex.Body = []string{`{"jsonrpc":`, `hello`, ``, `[1,`}[g.Int("garbage", 4)]
+				// bodies that are not valid JSON: from scratch, or a valid body damaged
+				// (its members must then not reach a handler either)
+				valid := ex.Body
+				switch g.Int("garbage", 9) {
+				case 0:
+					ex.Body = `{"jsonrpc":`
+				case 1:
+					ex.Body = `hello`
+				case 2:
+					ex.Body = ``
+				case 3:
+					ex.Body = `[1,`
+				case 4:
+					ex.Body = valid + ` this is not JSON`
+				case 5:
+					ex.Body = valid + valid
+				case 6:
+					ex.Body = valid + `]`
+				case 7:
+					ex.Body = valid[:1+g.Int("truncat", len(valid)-1)]
+				case 8:
+					ex.Body = valid + `,,,`
+				}
+				if json.Valid([]byte(ex.Body)) {
+					ex.Body = `hello` // the damage happened to leave valid JSON (a truncated number)
+				}
 			}
 			list = append(list, ex)
 		}
